@@ -144,13 +144,21 @@ enum SigKind {
     /// valid signature over `over`, but by this other key
     ByOther(u64),
 }
-#[derive(Clone, Debug, PartialEq)]
+#[derive(Clone, Copy, Debug, PartialEq)]
 enum VerKind {
     Same,
     NewerWallet,
     Unset,
     MinorDiff,
     MajorDiff,
+    /// incompatible in the DOWNWARD direction
+    OlderMinor,
+    OlderMajor,
+    /// major version 0 with a non-zero patch only: set, and incompatible
+    ZeroMajorPatch,
+    /// compatible core with an older patch; wallet one patch older / newer than ours
+    OlderPatchOlderWallet,
+    NewerPatchWallet,
 }
 #[derive(Clone, Debug, PartialEq)]
 enum Act {
@@ -181,6 +189,33 @@ fn ver_of(k: &VerKind) -> ((u8, u8, u16), (u8, u8, u16)) {
         VerKind::Unset => ((0, 0, 0), MY_WVER),
         VerKind::MinorDiff => ((1, 3, 3), MY_WVER),
         VerKind::MajorDiff => ((2, 2, 3), (2, 0, 0)),
+        VerKind::OlderMinor => ((1, 1, 9), MY_WVER),
+        VerKind::OlderMajor => ((0, 2, 3), (0, 9, 9)),
+        VerKind::ZeroMajorPatch => ((0, 0, 7), MY_WVER),
+        VerKind::OlderPatchOlderWallet => ((1, 2, 0), (1, 2, 4)),
+        VerKind::NewerPatchWallet => (MY_CVER, (1, 2, 6)),
+    }
+}
+
+/// The specification of version compatibility used by the oracle: an explicit table of every core
+/// version the harness ever puts into a response, with the verdict the property demands for a node
+/// whose own core version is 1.2.3 ("set, and same major.minor"). The oracle looks the verdict up;
+/// it does not re-implement the comparison of version.rs.
+const CORE_TABLE: &[((u64, u64, u64), bool)] = &[
+    ((1, 2, 3), true),
+    ((1, 2, 9), true),
+    ((1, 2, 0), true),
+    ((0, 0, 0), false),
+    ((1, 3, 3), false),
+    ((2, 2, 3), false),
+    ((1, 1, 9), false),
+    ((0, 2, 3), false),
+    ((0, 0, 7), false),
+];
+fn core_compatible(cv: (u64, u64, u64)) -> bool {
+    match CORE_TABLE.iter().find(|(v, _)| *v == cv) {
+        Some((_, ok)) => *ok,
+        None => panic!("harness: core version {:?} is not in CORE_TABLE", cv),
     }
 }
 
@@ -819,7 +854,7 @@ impl<'a> Ctx<'a> {
         if let Some((c, r)) = resp {
             let outstanding = outstanding_before.get(c).copied();
             let cv = vt(&r.core_version);
-            let version_ok = cv != (0, 0, 0) && cv.0 == MY_CVER.0 as u64 && cv.1 == MY_CVER.1 as u64;
+            let version_ok = core_compatible(cv);
             match outstanding {
                 None => why_not = "unsolicited (no challenge is outstanding on this connection: none issued since it was (re)opened, or already accepted)".to_string(),
                 Some(ch) => {
@@ -1046,6 +1081,8 @@ fn alphabet_static() -> Vec<Act> {
         Act::Replay { c: 1, nth: 0 },
         // a response under another key, also over the outstanding challenge
         genuine(1, 3),
+        // valid answer from an OLDER, incompatible core version
+        Act::Resp { c: 1, key: HONEST, over: Val::Issued(1, 0), sig: SigKind::Valid, ver: VerKind::OlderMinor, echo: Val::Fresh },
         // signature over the all-zero challenge (the honest key signs any challenge shown to it)
         Act::Resp { c: 1, key: HONEST, over: Val::Zero, sig: SigKind::Valid, ver: VerKind::Same, echo: Val::Zero },
         // incoming connection 2 for the zero-challenge case after an acceptance
@@ -1106,7 +1143,7 @@ fn gen_random(rng: &mut Rng, len: usize) -> Vec<Act> {
                 let mut a = genuine(c, key(rng));
                 if let Act::Resp { ver, echo, .. } = &mut a {
                     if rng.chance(1, 6) {
-                        *ver = VerKind::NewerWallet;
+                        *ver = *rng.pick(&[VerKind::NewerWallet, VerKind::OlderPatchOlderWallet, VerKind::NewerPatchWallet]);
                     }
                     if rng.chance(1, 6) {
                         *echo = Val::Zero;
@@ -1130,9 +1167,9 @@ fn gen_random(rng: &mut Rng, len: usize) -> Vec<Act> {
                 };
                 let ver = match rng.below(8) {
                     0 => VerKind::Unset,
-                    1 => VerKind::MinorDiff,
-                    2 => VerKind::MajorDiff,
-                    3 => VerKind::NewerWallet,
+                    1 => *rng.pick(&[VerKind::MinorDiff, VerKind::OlderMinor]),
+                    2 => *rng.pick(&[VerKind::MajorDiff, VerKind::OlderMajor, VerKind::ZeroMajorPatch]),
+                    3 => *rng.pick(&[VerKind::NewerWallet, VerKind::OlderPatchOlderWallet, VerKind::NewerPatchWallet]),
                     _ => VerKind::Same,
                 };
                 Act::Resp { c, key: key(rng), over, sig, ver, echo: val(rng) }
@@ -1303,6 +1340,40 @@ fn scripted() -> Vec<(&'static str, Vec<Act>)> {
             Act::Resp { c: 2, key: HONEST, over: Val::Issued(2, 0), sig: SigKind::Valid, ver: VerKind::NewerWallet, echo: Val::Zero },
         ],
     ));
+    // every version class, upward and downward, each on a fresh challenge
+    {
+        let mut acts = vec![];
+        for k in [
+            VerKind::OlderMinor,
+            VerKind::OlderMajor,
+            VerKind::ZeroMajorPatch,
+            VerKind::MinorDiff,
+            VerKind::MajorDiff,
+            VerKind::Unset,
+            VerKind::OlderPatchOlderWallet,
+            VerKind::NewerPatchWallet,
+            VerKind::NewerWallet,
+            VerKind::Same,
+        ] {
+            acts.push(Act::New(2));
+            acts.push(Act::Resp { c: 2, key: HONEST, over: Val::Issued(2, 0), sig: SigKind::Valid, ver: k, echo: Val::Fresh });
+        }
+        v.push(("versions-all", acts));
+    }
+    // limiter window boundary: exactly 60 000 ms after the window start is still inside (`>`), +1 is outside
+    {
+        let mut lim = vec![Act::Tick(100_000), Act::New(2)];
+        for _ in 0..101 {
+            lim.push(Act::Chal { c: 2, x: Val::Fresh });
+        }
+        lim.push(Act::Tick(60_000));
+        lim.push(genuine(2, HONEST));
+        lim.push(Act::Chal { c: 2, x: Val::Fresh });
+        lim.push(Act::Tick(1));
+        lim.push(Act::Chal { c: 2, x: Val::Fresh });
+        lim.push(genuine(2, HONEST));
+        v.push(("limiter-window-boundary", lim));
+    }
     // reconnection onto the static entry's key
     v.push((
         "static-reconnection",
